@@ -99,7 +99,7 @@ def run(tier, seed, started):
             len(res.sets.get('slice_sites', ())) < 6:
         common.vacuous(PROP, res, f'vacuous C10 run: {c} {kinds}')
     coverage = {
-        'evaluations': c['executions'],
+        'evaluations': c['executions'] + c['sliced_executions'],
         'distinct_nontrivial': len(res.sets.get('schedules', ())),
         'rule': ('16 scenarios (C07 family + queries before / during / after the events) x every '
                  'choice vector with total deviation cost <= bound; distinct = (scenario, vector)'),
